@@ -128,6 +128,10 @@ static void fold_buffer(proc *pr)
     if (pr->op != OP_BPUT && pr->op != OP_BGET) return;
     const bool put = pr->op == OP_BPUT;
     const uint64_t cur = put ? pr->buf_req - pr->bufvar : pr->bufvar;
+    /* what one call has transferred so far only grows, and never beyond what was asked for */
+    if (cur < pr->buf_booked || cur > pr->buf_req || (put && pr->bufvar > pr->buf_req))
+        viol("C11", "transferred-amount-out-of-range", "process %d: %s of %" PRIu64 " has transferred %" PRIu64 " so far (was %" PRIu64 " at the last look)",
+             pr->id, put ? "put" : "get", pr->buf_req, cur, pr->buf_booked);
     if (put) W.buf_put[pr->obj] += cur - pr->buf_booked; else W.buf_got[pr->obj] += cur - pr->buf_booked;
     if (cur != pr->buf_booked && cur != pr->buf_req && cur != 0) PROBE("buf.partial_transfer");
     pr->buf_booked = cur;
